@@ -11,15 +11,40 @@ def VOID(cell):
     return cell['resp'] == '.google.protobuf.Empty'
 
 
+class MultiLib:
+    """The emitted library, with services that live in proto sub-packages looked up in their own python sub-package."""
+
+    def __init__(self, package, svc_package):
+        self.root = probelib.Lib(package)
+        self.pkg = self.root.pkg
+        self.subs = {svc: probelib.Lib(pk) for svc, pk in svc_package.items()}
+
+    def _of(self, svc):
+        return self.subs.get(svc, self.root)
+
+    def client_cls(self, svc, asyncio_=False):
+        return self._of(svc).client_cls(svc, asyncio_)
+
+    def sync(self, svc, clock=None):
+        return self._of(svc).sync(svc, clock)
+
+    def aio(self, svc, clock=None):
+        return self._of(svc).aio(svc, clock)
+
+    def type_of(self, full, tp):
+        return self.root.type_of(full, tp)
+
+
 def main(p):
     a = p.args
     out = dict(calls=0, combos=0, failures=[], nontrivial=[], outcomes={}, samples=[])
     try:
-        lib = probelib.Lib(a['package'])
+        lib = MultiLib(a['package'], a.get('svc_package') or {})
     except BaseException as e:
         out['import_error'] = probelib.exc_info(e)
         return out
     tp = a['proto_package']
+    SVC_PROTO = a.get('svc_proto_package') or {}
 
     def fail(cell, client, form, val, reply, kind, detail):
         if len(out['failures']) < 400:
@@ -48,7 +73,7 @@ def main(p):
         e = log[0]
         if e['kind'] != cell['arity']:
             fail(cell, client, form, val, rlabel, 'arity', f'{e["kind"]} != {cell["arity"]}')
-        exp_path = f'/{tp}.{cell["service"]}/{cell["rpc"]}'
+        exp_path = f'/{SVC_PROTO.get(cell["service"], tp)}.{cell["service"]}/{cell["rpc"]}'
         if e['path'] != exp_path:
             fail(cell, client, form, val, rlabel, 'path', f'{e["path"]} != {exp_path}')
         raws = e['raw'] if isinstance(e['raw'], list) else [e['raw']]
@@ -291,7 +316,8 @@ def conformance(p, a, lib, out, combos, build_args, VOID):
     import grpc
     from google.auth.credentials import AnonymousCredentials
     tp = a['proto_package']
-    arity = {f'/{tp}.{c["service"]}/{c["rpc"]}': c['arity'] for c in a['cells']}
+    SVC_PROTO = a.get('svc_proto_package') or {}
+    arity = {f'/{SVC_PROTO.get(c["service"], tp)}.{c["service"]}/{c["rpc"]}': c['arity'] for c in a['cells']}
     seen = []
     replies = {}
 
@@ -346,7 +372,7 @@ def conformance(p, a, lib, out, combos, build_args, VOID):
             real, fake, fch = clients[svc]
             form, vlabel, reqs, rlabel, reply, Dreq, Dresp = [x for x in combos(cell)][-1]
             raw = [r.SerializeToString() for r in reply] if isinstance(reply, list) else [reply.SerializeToString()]
-            path = f'/{tp}.{svc}/{cell["rpc"]}'
+            path = f'/{SVC_PROTO.get(svc, tp)}.{svc}/{cell["rpc"]}'
             replies[path] = raw
             del seen[:]
             fch.log.clear()
@@ -391,7 +417,7 @@ def conformance(p, a, lib, out, combos, build_args, VOID):
                 real, fake, fch = aclients[svc]
                 form, vlabel, reqs, rlabel, reply, Dreq, Dresp = [x for x in combos(cell)][-1]
                 raw = [r.SerializeToString() for r in reply] if isinstance(reply, list) else [reply.SerializeToString()]
-                path = f'/{tp}.{svc}/{cell["rpc"]}'
+                path = f'/{SVC_PROTO.get(svc, tp)}.{svc}/{cell["rpc"]}'
                 replies[path] = raw
                 del seen[:]
                 fch.log.clear()
